@@ -1,0 +1,89 @@
+//go:build verif
+
+package pogreb
+
+// Contracts for datalog.go (GoVC, see /verif/DESIGN.md). Comment-only file.
+
+// a segment of the table: open file with FILE-INV, metadata present
+// every segment file name has the extension .psg (it is created by segmentName or found by its extension)
+//@ spec func segOK(s *segment) bool = s != nil && extOf(s.name) == ".psg" && s.file != nil && s.meta != nil && fileInv(s.file) && s.file.size >= 512 && s.id < 32767
+
+// TABLE: every entry is a well-formed segment stored under its own id whose file is in the directory under its name
+//@ spec func dlTable(dl *datalog) bool = forall i int :: 0 <= i && i < 32767 && dl.segments[i] != nil ==> segOK(dl.segments[i]) && int(dl.segments[i].id) == i && dirFid[dl.opts.FileSystem][dl.segments[i].name] == fidOf[dl.segments[i].file.File]
+
+// entries do not share objects, handles or files
+//@ spec func dlDistinct(dl *datalog) bool = forall i int, j int :: 0 <= i && i < 32767 && 0 <= j && j < 32767 && i != j && dl.segments[i] != nil && dl.segments[j] != nil ==> dl.segments[i].file != dl.segments[j].file && dl.segments[i].meta != dl.segments[j].meta && dl.segments[i].file.File != dl.segments[j].file.File && fidOf[dl.segments[i].file.File] != fidOf[dl.segments[j].file.File]
+
+// CUR: the current segment is an entry of the table (hence open), or it was sealed and removed by
+// compaction, in which case it is marked full so that the next write replaces it before using it.
+//@ spec func dlCurOK(dl *datalog) bool = dl.curSeg != nil && dl.curSeg.meta != nil && dl.curSeg.file != nil && dl.curSeg.file.File != nil && dl.curSeg.id < 32767 && (dl.segments[dl.curSeg.id] == dl.curSeg || dl.curSeg.meta.Full)
+
+//@ spec func dlInv(dl *datalog) bool = dl != nil && dl.opts != nil && dl.opts.FileSystem != nil && dlTable(dl) && dlDistinct(dl) && dlCurOK(dl)
+
+// SEALED-DURABLE (C06): every segment of the table that is not the current one is durable up to its length
+//@ spec func segDurable(s *segment) bool = fDur[fidOf[s.file.File]] == fLen[fidOf[s.file.File]]
+//@ spec func dlSealedDurable(dl *datalog) bool = forall i int :: 0 <= i && i < 32767 && dl.segments[i] != nil && dl.segments[i] != dl.curSeg ==> segDurable(dl.segments[i])
+//@ spec func dlAllDurable(dl *datalog) bool = forall i int :: 0 <= i && i < 32767 && dl.segments[i] != nil ==> segDurable(dl.segments[i])
+
+//@ func (dl *datalog) sync() (err error) [C06,C15]
+//@   requires inv: dlInv(dl)
+//@   requires [C06] sealed: dlSealedDurable(dl)
+//@   ensures [C06] durable: err == nil ==> dlAllDurable(dl)
+//@   ensures inv: dlInv(dl) && dlSealedDurable(dl)
+//@   ensures [C15] usable: err != nil ==> isIOErr(err)
+//@   modifies fDur[fidOf[dl.curSeg.file.File]]
+
+//@ func (dl *datalog) removeSegment(seg *segment) (err error) [C05,C06,C15]
+//@   requires inv: dlInv(dl)
+//@   requires member: seg != nil && seg.id < 32767 && dl.segments[seg.id] == seg
+//@   requires full: seg.meta.Full
+//@   requires [C06] copies-durable: forall i int :: 0 <= i && i < 32767 && dl.segments[i] != nil && dl.segments[i] != seg ==> segDurable(dl.segments[i])
+//@   ensures [C15] removed: err == nil ==> dl.segments[seg.id] == nil && dirFid[dl.opts.FileSystem][seg.name] == 0
+//@   ensures [C15] meta-removed: err == nil ==> dirFid[dl.opts.FileSystem][seg.name + ".pmt"] == 0
+//@   ensures [C15] closed: err == nil ==> !hOpen[seg.file.File]
+//@   ensures [C15] inv: err == nil ==> dlInv(dl)
+//@   ensures others: forall i int :: 0 <= i && i < 32767 && i != int(seg.id) ==> dl.segments[i] == old(dl.segments[i])
+//@   ensures [C06] durable: err == nil ==> dlAllDurable(dl)
+//@   ensures err: err != nil ==> isIOErr(err)
+//@   modifies dl.segments, hOpen[seg.file.File], dirFid[dl.opts.FileSystem]
+
+// SLOT-VALID: the slot designates a complete record inside an open segment
+//@ spec func slotInSeg(dl *datalog, sl slot) bool = sl.segmentID < 32767 && dl.segments[sl.segmentID] != nil && sl.offset >= 512 && sl.valueSize <= 0x7fffffff && int64(sl.offset) + 10 + int64(sl.keySize) + int64(sl.valueSize) <= dl.segments[sl.segmentID].file.size
+
+//@ func (dl *datalog) trackDel(sl slot) [C01,C05]
+//@   requires inv: dlInv(dl)
+//@   requires slot: sl.segmentID < 32767 && dl.segments[sl.segmentID] != nil
+//@   modifies dl.segments[sl.segmentID].meta.DeletedKeys, dl.segments[sl.segmentID].meta.DeletedBytes
+
+//@ func (dl *datalog) readKey(sl slot) (key []byte, err error) [C01,C16,C14]
+//@   requires inv: dlInv(dl)
+//@   requires slot: slotInSeg(dl, sl)
+//@   ensures len: err == nil ==> len(key) == int(sl.keySize)
+//@   ensures data: err == nil ==> sameBytes(contents(key), off(key), fData[fidOf[dl.segments[sl.segmentID].file.File]], int(sl.offset)+6, len(key))
+//@   ensures err: err != nil ==> isIOErr(err)
+
+//@ func (dl *datalog) readKeyValue(sl slot) (key []byte, value []byte, err error) [C01,C16,C14,C11]
+//@   requires inv: dlInv(dl)
+//@   requires slot: slotInSeg(dl, sl)
+//@   ensures len: err == nil ==> len(key) == int(sl.keySize) && len(value) == int(sl.valueSize)
+//@   ensures key: err == nil ==> sameBytes(contents(key), off(key), fData[fidOf[dl.segments[sl.segmentID].file.File]], int(sl.offset)+6, len(key))
+//@   ensures value: err == nil ==> sameBytes(contents(value), off(value), fData[fidOf[dl.segments[sl.segmentID].file.File]], int(sl.offset)+6+int(sl.keySize), len(value))
+//@   ensures err: err != nil ==> isIOErr(err)
+
+//@ func encodePutRecord(key []byte, value []byte) (data []byte) [C16,C18]
+//@   requires klen: len(key) <= 0xffff
+//@   requires vlen: len(value) <= 0x7fffffff
+//@   ensures len: len(data) == 10 + len(key) + len(value) && fresh(data)
+//@   ensures ksize: le16(contents(data), off(data)) == uint16(len(key))
+//@   ensures vsize: le32(contents(data), off(data)+2) == uint32(len(value))
+//@   ensures key: forall j int :: 0 <= j && j < len(key) ==> data[6+j] == key[j]
+//@   ensures value: forall j int :: 0 <= j && j < len(value) ==> data[6+len(key)+j] == value[j]
+//@   ensures crc: le32(contents(data), off(data)+len(data)-4) == crc(contents(data), off(data), len(data)-4)
+
+//@ func encodeDeleteRecord(key []byte) (data []byte) [C16,C18]
+//@   requires klen: len(key) <= 0xffff
+//@   ensures len: len(data) == 10 + len(key) && fresh(data)
+//@   ensures ksize: le16(contents(data), off(data)) == uint16(len(key))
+//@   ensures vsize: le32(contents(data), off(data)+2) == 0x80000000
+//@   ensures key: forall j int :: 0 <= j && j < len(key) ==> data[6+j] == key[j]
+//@   ensures crc: le32(contents(data), off(data)+len(data)-4) == crc(contents(data), off(data), len(data)-4)
